@@ -193,6 +193,8 @@ class _Stripper(ast.NodeTransformer):
             st = self.visit(st)
             if st is None:
                 continue
+            if isinstance(st, ast.If) and not st.orelse and all(isinstance(b, ast.Pass) for b in st.body) and any(_is_dropped_call(n) for n in ast.walk(st.test)):
+                continue  # `if <cond> and logger.isEnabledFor(...): logger.debug(...)` with nothing left in its body
             out.append(st)
         return out
 
